@@ -146,6 +146,13 @@ impl ConnIdCounter {
     }
 }
 
+#[cfg(feature = "verif-hooks")]
+impl ConnIdCounter {
+    pub(crate) fn verif_counts(&self) -> (Vec<usize>, Vec<usize>) {
+        (self.lid_count.clone(), self.rid_count.clone())
+    }
+}
+
 #[cfg(test)]
 mod tests {
     use super::*;
